@@ -362,6 +362,49 @@ theorem C16_ide_style_example :
 theorem C16_defaultdict_fresh_example :
     defaultFromTy (.generic .defaultdict true) = { dflt := none, factory := some (.atom .defaultdict) } := by decide
 
+/-! ## the default implied by an annotation depends on the ORDER of its members
+
+Python's typing objects compare equal across member order (`Union[int, str] == Union[str, int] == (str | int)`,
+`Literal['r', 'w'] == Literal['w', 'r']`); the implied default does not: it is read off the first member / first value of
+the very annotation the class wrote.  (The correspondence stream "histories of equal-comparing annotations" checks the
+implementation against exactly this, for several classes declared in one process.) -/
+
+/-- a Union without None: the default implied is that of its FIRST member, whatever follows -/
+theorem C16_union_default_is_first_member (a : Ty) (rest : List Ty) (h : (a :: rest).any Ty.isNoneT = false) :
+    defaultFromTy (.union (a :: rest)) = fromType a := by
+  simp only [defaultFromTy, h, Bool.false_eq_true, if_false]
+
+/-- a Union with None among its members (every spelling of Optional, None in any position): no default value, the setter
+receives None — in particular for every order of the members -/
+theorem C16_optional_default_none (args args' : List Ty) (hp : args.Perm args') (h : args.any Ty.isNoneT = true) :
+    defaultFromTy (.union args') = {} := by
+  have h' : args'.any Ty.isNoneT = true := by
+    rw [List.any_eq_true] at h ⊢
+    obtain ⟨x, hx, hn⟩ := h
+    exact ⟨x, hp.mem_iff.mp hx, hn⟩
+  simp only [defaultFromTy, h', if_true]
+
+/-- a Literal: the default implied is its FIRST value, whatever follows -/
+theorem C16_literal_default_is_first_value (v : Lit) (vs : List Lit) :
+    defaultFromTy (.literal (v :: vs)) = { dflt := some (.lit v) } := by
+  simp only [defaultFromTy]
+
+/-- the same members in another order imply ANOTHER default: an implementation may not identify the two annotations
+(as Python's `==` / `hash` on typing objects do) when it works out the default -/
+theorem C16_member_order_matters_example :
+    defaultFromTy (.union [.atom .int, .atom .str]) = { dflt := some (.zero .int) }
+    ∧ defaultFromTy (.union [.atom .str, .atom .int]) = { dflt := some (.zero .str) }
+    ∧ defaultFromTy (.literal [.str "r".toList, .str "w".toList]) = { dflt := some (.lit (.str "r".toList)) }
+    ∧ defaultFromTy (.literal [.str "w".toList, .str "r".toList]) = { dflt := some (.lit (.str "w".toList)) }
+    ∧ defaultFromTy (.literal [.int 0, .str "r".toList]) ≠ defaultFromTy (.literal [.bool false, .str "r".toList]) := by
+  refine ⟨by decide, by decide, by decide, by decide, by decide⟩
+
+/-- the default implied for a field is a function of what the class's own annotations say about that field — of nothing
+else (no other field, no other class, nothing that happened before) -/
+theorem C16_implied_default_own_annotation (anns anns' : List (Name × Ty)) (n : Name) (h : get n anns = get n anns') :
+    defaultFromAnnotation anns n = defaultFromAnnotation anns' n := by
+  simp only [defaultFromAnnotation, h]
+
 /-! ## the public name of an underscored property: only LEADING underscores are dropped -/
 
 /-- The public partner of the underscored name `_n` is `n` itself whenever `n` does not start with an underscore —
